@@ -8,10 +8,13 @@ pub mod c07;
 pub mod c08;
 pub mod c09;
 pub mod c10;
+pub mod c11;
+pub mod c12;
 pub mod c13;
 pub mod c14;
 pub mod c15;
 pub mod c16;
+pub mod c17;
 pub mod selftest;
 
 use crate::engine::{Family, Tier};
@@ -29,10 +32,13 @@ pub fn run(id: &str, tier: Tier, hash_out: Option<String>) -> i32 {
         "C08" => c08::run(tier),
         "C09" => c09::run(tier),
         "C10" => c10::run(tier),
+        "C11" => c11::run(tier),
+        "C12" => c12::run(tier),
         "C13" => c13::run(tier),
         "C14" => c14::run(tier),
         "C15" => c15::run(tier),
         "C16" => c16::run(tier),
+        "C17" => c17::run(tier),
         _ => {
             eprintln!("unknown property {}", id);
             2
@@ -52,10 +58,13 @@ pub fn replay_families(id: &str, tier: Tier) -> Option<Vec<Family<'static>>> {
         "C08" => Some(c08::replay_families(tier)),
         "C09" => Some(c09::replay_families(tier)),
         "C10" => Some(c10::replay_families(tier)),
+        "C11" => Some(c11::replay_families(tier)),
+        "C12" => Some(c12::replay_families(tier)),
         "C13" => Some(c13::replay_families(tier)),
         "C14" => Some(c14::replay_families(tier)),
         "C15" => Some(c15::replay_families(tier)),
         "C16" => Some(c16::replay_families(tier)),
+        "C17" => Some(c17::replay_families(tier)),
         _ => None,
     }
 }
